@@ -695,6 +695,12 @@ class Folder:
                 return string.ascii_letters
             if r.dotted == "string.digits":
                 return "0123456789"
+            if r.dotted.startswith("operator.") and r.dotted.count(".") == 1:
+                import operator as _op
+
+                f_ = getattr(_op, r.dotted.split(".")[1], None)
+                if callable(f_):
+                    return f_  # a function of the operator module as a value (functools.reduce(operator.ior, ...))
             if r.dotted in _PURE_BUILTIN_VALUES:
                 return _PureBuiltin(r.dotted.split(".")[1])  # a pure builtin as a first-class value (map(sum, ...), key=len)
         raise Unfoldable("cannot resolve %s" % unparse(e))
@@ -856,7 +862,7 @@ class Folder:
             raise Unfoldable(unparse(e))
         if name in ("min", "max", "sorted"):
             vals = [self.fold(a) for a in args]
-            if len(vals) == 1 and isinstance(vals[0], (list, tuple, frozenset, set, ARange)):
+            if len(vals) == 1 and (isinstance(vals[0], (list, tuple, frozenset, set, ARange)) or type(vals[0]).__name__ == "AObj"):
                 vals = list(vals[0])
             kw = {k.arg: self.fold(k.value) for k in e.keywords if k.arg}
             keyf = kw.pop("key", None)
@@ -879,6 +885,12 @@ class Folder:
             v = self.fold(args[0])
             if isinstance(v, Abstract) and hasattr(v, "abs_len"):
                 return v.abs_len()
+            if type(v).__name__ == "AObj" and v._record() is None:
+                m_ = v._ctx_.repo.lookup_method(v._cls_, "__len__")
+                if m_ is not None:
+                    from .absint import _BoundMethod
+
+                    return _BoundMethod(v, m_).call(self, [], {})
             return len(v)
         if name in ("typing.cast", "cast") and len(args) == 2:
             return self.fold(args[1])
@@ -1083,7 +1095,7 @@ class Folder:
         if name in ("functools.reduce", "reduce") and len(args) in (2, 3):
             f = self.fold(args[0])
             vals = list(self.fold(args[1]))
-            if isinstance(f, (_Lambda, _LocalFn, _Partial)) or type(f).__name__ == "_BoundMethod" or (isinstance(f, Abstract) and callable(f)):
+            if isinstance(f, (_Lambda, _LocalFn, _Partial)) or type(f).__name__ == "_BoundMethod" or (isinstance(f, Abstract) and callable(f)) or getattr(f, "__module__", None) == "_operator":
                 if len(args) == 3:
                     acc = self.fold(args[2])
                 elif vals:
